@@ -74,6 +74,8 @@ def _case(draw, held=False):
         st.tuples(st.just('tgt'), t).map(list),
         st.just(['reopen']),
         st.tuples(st.just('rmshared'), st.integers(0, 7)).map(list),
+        st.tuples(st.just('updwf'), t, run, a, cidx,
+                  st.integers(0, 6)).map(list),
         # a dataset that is kept and loaded again later (slot 0..1)
         st.tuples(st.just('hold'), t, run, a, st.integers(0, 1)).map(list),
         st.tuples(st.just('hload'), st.integers(0, 1)).map(list),
@@ -171,6 +173,19 @@ def execute(case):
                     continue
                 kind = 'upd'
                 op = ['upd', h['t'], op[2], h['i'], op[3]]
+            if kind == 'updwf':
+                # an update during which one catalogue write fails (disk
+                # full for a moment); the worker's job is run again
+                cont = [case['contents'][c] for c in op[4]]
+                with store.catalogue_write_fault(op[5]) as hit:
+                    try:
+                        s.update(op[1], op[2], op[3], cont)
+                    except OSError:
+                        pass
+                if hit[0]:
+                    out.label('catalogue-write-failed-once')
+                    s.update(op[1], op[2], op[3], cont)
+                kind = 'noop'
             if kind == 'upd':
                 cont = [case['contents'][c] for c in op[4]]
                 s.update(op[1], op[2], op[3], cont)
